@@ -318,6 +318,7 @@ class Env:
         self.secindex = mpc.seclist.__init__.__globals__['secindex']
         self.scale = SCALE[tname]
         self.sec = sec or self.T            # plain number -> secure number
+        self.args = []                      # (argument object, its plain content when made): must be unchanged afterwards
 
     def conc(self, v):
         return v * self.scale if self.scale != 1 else v
@@ -333,6 +334,7 @@ class Env:
             return self.sec(i)
         uv = [self.sec(int(j == i)) for j in range(length)]
         if kind == 'uv':
+            self.args.append((uv, list(uv), [int(j == i) for j in range(length)]))
             return uv
         off = 0 if kind == 'si0' else i
         return self.secindex(uv[off:], offset=off)
@@ -341,7 +343,9 @@ class Env:
         if yf == 'self':
             return x
         if yf == 'list':
-            return [self.conc(v) for v in ys]
+            r = [self.conc(v) for v in ys]
+            self.args.append((r, list(r), None))
+            return r
         if yf == 'tuple':
             return tuple(self.conc(v) for v in ys)
         return self.seclist([self.sec(self.conc(v)) for v in ys], self.T)
@@ -585,11 +589,17 @@ def run_one_sp(E, seam, state, op, mode, seed, x=None):
     seam.begin(mode, seed, None)
     if x is None:
         x = E.build(state)
+    del E.args[:]
     try:
         y, raw, kind = apply_real(E, x, op)
         result = sp_open(E, raw, kind)
     except Exception as exc:
         return ('raises', type(exc).__name__, repr(exc)), x
+    for obj, items, plain in E.args:
+        # an index given as a list of secure numbers (unit vector), or a plain list operand, belongs to the caller
+        if len(obj) != len(items) or any(a is not b for a, b in zip(obj, items)) or \
+                (plain is not None and [int(sp_open(E, a, 'num')) for a in obj] != plain):
+            return ('raises', 'ArgumentChanged', f'the caller\'s {"unit-vector index" if plain is not None else "list operand"} was modified by the operation'), x
     typeok = isinstance(y, E.seclist) and y.sectype is E.T
     contents = sp_contents(E, y)
     old = sp_contents(E, x) if op[0] in NEWOBJ else None
